@@ -11,6 +11,13 @@ def _last(ev):
     a = ev['a']
     keep = {k: ev[k] for k in ('id', 'a', 'p', 'nt', 'sigx', 'label', 'session') if k in ev}
     try:
+        # only inputs that are rebuilt FAITHFULLY from their projection are executed again
+        from abstraction import abstract, a_frame
+        if a in ('EncodeValue', 'EncodeArg', 'EncodeFixed') and abstract(concrete(ev['in'])) != ev['in']:
+            return ev, False
+        if a == 'RoundTrip' and (a_frame(concrete_frame(ev['in'])) != ev['in'] or not isinstance(ev['ch'], int)
+                                 or (ev['in']['cls'] == 'ContentBody' and not ev['in']['b'])):
+            return ev, False
         if a == 'EncodeValue':
             new = actions.encode_value(concrete(ev['in']), ev['pos'])
         elif a == 'EncodeArg':
